@@ -43,8 +43,8 @@ def apply(d, edits):
 
 
 def run_tests(d):
-    p = subprocess.run(['/venv/bin/python', '-B', '-m', 'pytest', '-q', '-x', '-p', 'no:cacheprovider',
-                        '--timeout=900', 'tests'], cwd=d, capture_output=True, text=True,
+    p = subprocess.run(['timeout', '-k', '5', '300', '/venv/bin/python', '-B', '-m', 'pytest', '-q', '-x', '-p', 'no:cacheprovider',
+                        '--timeout=60', 'tests'], cwd=d, capture_output=True, text=True,
                        env=dict(os.environ, PYTHONDONTWRITEBYTECODE='1'))
     tail = p.stdout.strip().splitlines()[-1] if p.stdout.strip() else p.stderr[-200:]
     return p.returncode == 0, tail
@@ -71,8 +71,12 @@ def main():
             t0 = time.time()
             env = dict(os.environ, VERIF_BUDGET_S=args.budget, VERIF_OUT_DIR=os.path.join(d, 'out'),
                        VERIF_EVIDENCE_DIR=os.path.join(d, 'evidence'))
-            p = subprocess.run([os.path.join(HERE, 'check'), args.prop, '--tier', args.tier, '--root', d],
-                               capture_output=True, text=True, env=env)
+            try:
+                p = subprocess.run(['timeout', '-k', '5', '400', os.path.join(HERE, 'check'), args.prop,
+                                    '--tier', args.tier, '--root', d],
+                                   capture_output=True, text=True, env=env)
+            finally:
+                subprocess.run(['pkill', '-f', d], capture_output=True)
             dt = time.time() - t0
             viol = [l for l in p.stdout.splitlines() if l.startswith('VIOLATION')]
             cls = [l for l in p.stdout.splitlines() if l.startswith('violation class=')]
